@@ -5,6 +5,9 @@
 //!       formula of the run (input, after pass 1, .., after pass n-1; pass n changes nothing)
 //!   (nonterminating <n>)   still changing after MAX_PASSES extra passes
 //!   (toolarge <n>)         an intermediate formula exceeds SIZE_CAP nodes (terms included)
+//!   (apply-fixpoint-differs <n> <result of the real apply_fixpoint>)   the replay converged after
+//!       n passes but the real `Formula::apply_fixpoint` (called afterwards on the same input with
+//!       the same composed portfolio) returned a different formula; the model never answers this
 //!   (panic)
 use super::Op;
 use crate::{
@@ -29,6 +32,7 @@ fn outcome(p: x::Passes) -> Sexp {
         }
         x::Passes::Nonterminating(n) => tagged("nonterminating", vec![conv::unum(n)]),
         x::Passes::TooLarge(n) => tagged("toolarge", vec![conv::unum(n)]),
+        x::Passes::FixpointDiffers(n, g) => tagged("apply-fixpoint-differs", vec![conv::unum(n), conv::formula(&g)]),
     }
 }
 fn full() -> Vec<fn(fol::Formula) -> fol::Formula> {
